@@ -9,7 +9,7 @@ META = {
                 technique='MIR path enumeration of generated constructors vs reference model (translation validation)',
                 text='For every corpus declaration (inner type x sanitizer list x validator list x bound spelling x const_fn/generics) the MIR of try_new/new is '
                      'enumerated path by path with generated callees inlined; the extracted guard program (sanitizer chain, ordered checks with relation, measured '
-                     'quantity and folded bound, rejecting siblings, absence of panic edges) must equal the reference model. Holds for all inputs of each analysed declaration. The generator is additionally linted for profile- or cfg-dependent tokens in generated code (G-PROFILE): the analysed expansion is the dev-profile one.',
+                     'quantity and folded bound, rejecting siblings, absence of panic edges) must equal the reference model. Holds for all inputs of each analysed declaration. The generator is additionally linted for profile- or cfg-dependent tokens in generated code (G-PROFILE): the analysed expansion is the dev-profile one. R-HYGIENE: the generated module (which glob-imports the items of the declaring module) defines and imports no name other than the type, its error types and `__`-prefixed ones, nor does a generated function body that holds user tokens - any other name would capture the user item of that name in the spliced bounds, closures and defaults. R-SCOPE (known finding): the bound denotes what the expression means where it is written.',
                 note=TRUSTED),
     'C03': dict(level='other', design_ref='DESIGN.md 4.2 R-DELEG, 5/C03',
                 technique='outcome-table equivalence of conversion bodies and the constructor (path-exhaustive dataflow)',
@@ -19,7 +19,7 @@ META = {
     'C04': dict(level='other', design_ref='DESIGN.md 4.2 R-DESER, 5/C04',
                 technique='MIR outcome tables of Deserialize::deserialize and the visitor vs constructor table; who-may-construct scan',
                 text='deserialize must hand the deserializer to deserialize_newtype_struct with a visitor that implements only visit_newtype_struct, whose outcome table is: inner deserialize error returned unchanged; '
-                     'otherwise exactly the constructor table on the deserialized inner value, rejections wrapped in de::Error::custom. Format-independent, so it holds for every document and nesting position.',
+                     'otherwise exactly the constructor table on the deserialized inner value, rejections wrapped in de::Error::custom. Format-independent, so it holds for every document and nesting position. Compile-verdict witnesses: newtypes over Cow<str> / Vec<T> are DeserializeOwned when instantiated with owned parameters.',
                 note=TRUSTED + '; serde formats call visit_newtype_struct or fall back to the default invalid-type error'),
     'C06': dict(level='other', design_ref='DESIGN.md 4.2 R-FROMSTR, 5/C06',
                 technique='MIR outcome table of from_str vs table built from inner parse + constructor',
@@ -33,7 +33,7 @@ META = {
     'C10': dict(level='other', design_ref='DESIGN.md 4.2 R-SER/R-DESER, 5/C10',
                 technique='MIR shape of serialize (serialize_newtype_struct(name, &self.0)) + R-DESER; composition argument',
                 text='Structural clause only: serialize is exactly serializer.serialize_newtype_struct("<T>", &self.0) and deserialize is the constructor on the inner value read back; '
-                     'round trip then follows from the inner value round-tripping (premise) and C11/C01. Byte identity in JSON/MessagePack rests on those crates treating newtype structs transparently (assumption).',
+                     'round trip then follows from the inner value round-tripping (premise) and C11/C01. Byte identity in JSON/MessagePack rests on those crates treating newtype structs transparently (assumption). Compile-verdict witnesses: an owned value of a lifetime- or type-parameterised newtype is DeserializeOwned (the generated impl is as general as the inner type allows).',
                 note=TRUSTED + '; serde_json/rmp-serde serialize_newtype_struct is transparent (not analysed)'),
     'C12': dict(level='other', design_ref='DESIGN.md 5/C12',
                 technique='MIR: is_finite dominates every construction on all entry points; Ord::cmp outcome table; derive delegation shapes',
@@ -68,7 +68,7 @@ META.update({
     'C16': dict(level='translation_validation', design_ref='DESIGN.md 4.2 R-MSG, 5/C16',
                 technique='sibling agreement: relation stated by the Display template (decoded from fmt::Arguments in MIR) vs relation enforced by the check of the same variant',
                 text='For every bound-violation variant of every corpus declaration: the format template (decoded from the compiled fmt::Arguments bytes) names the newtype; an argument is the very bound term the check compares against; '
-                     'the relation phrase, mapped through a fixed vocabulary to a set of orderings, equals the accept-set extracted from the validator check (a float guard that orders through total_cmp is a different relation and is reported). ParseError::Validate and serde errors display the validation error through its own Display.',
+                     'the relation phrase, mapped through a fixed vocabulary to a set of orderings, equals the accept-set extracted from the validator check (a float guard that orders through total_cmp is a different relation and is reported). ParseError::Validate and serde errors display the validation error through its own Display, and the error a conversion (TryFrom, FromStr, Deserialize) reports for an input is the error of the constructor for that input: their MIR outcome tables equal the table of the constructor, so no conversion states a violation on its own.',
                 note=TRUSTED + '; the relation vocabulary (greater than / at least / less or equal to / ...) is the reading of the English phrases'),
 })
 
